@@ -14,7 +14,8 @@ Shapes(sg) == UNION {{[npos |-> np, kws |-> ks] :
                          ks \in {q \in OrderedSubsets({FNames[i] : i \in 1..sg.n} \cup {"zz"}) : Len(q) <= 2}} :
                         np \in 0..(sg.n + 1)}
 Cases == UNION {{[sig |-> sg, shape |-> sh, cls |-> kind, route |-> rt] :
-                    sh \in Shapes(sg), kind \in {"dataclass", "namedtuple", "dataclass_initfalse", "dataclass_kwonly"},
+                    sh \in Shapes(sg), kind \in {"dataclass", "namedtuple", "dataclass_initfalse", "dataclass_kwonly",
+                                                  "dataclass_derived"},    \* (the last field added by a subclass of a dataclass that was lowered before)
                     rt \in {"direct", "select"}} :
                   sg \in Sigs}
 VARIABLE cs
